@@ -268,6 +268,11 @@ pub(crate) fn mmr_oracle(last: &VerifiableHeader, proof: &packed::HeaderDigestVe
         if end >= u64::MAX / 2 || headers.iter().any(|h| h.header().number() > end) { return 1; }
         let size = leaf_index_to_mmr_size(end);
         let items: Vec<packed::HeaderDigest> = proof.clone().into_iter().collect();
+        // digests that exceed the chain root cannot be part of a proof for it (and would overflow the library's merge)
+        let root_td: ckb_types::U256 = root.total_difficulty().unpack();
+        if root_td >= (ckb_types::U256::one() << 224) { return 1; }
+        if items.iter().any(|d| { let td: ckb_types::U256 = d.total_difficulty().unpack(); let e: u64 = d.end_number().unpack(); td > root_td || e > end }) { return 1; }
+        if headers.iter().any(|h| { let td: ckb_types::U256 = h.header().digest().total_difficulty().unpack(); td > root_td }) { return 1; }
         let p = MMRProof::new(size, items);
         let mut leaves = Vec::new();
         for h in headers {
@@ -303,5 +308,9 @@ pub(crate) fn obs_prove(st: &Option<PeerState>) -> Val {
 }
 
 pub(crate) fn last_state_xid(st: &Option<PeerState>) -> Option<String> {
-    st.as_ref().and_then(|s| s.get_last_state()).map(|l| xid(l.as_ref()))
+    // is_same_as also compares the total difficulty, which the (header, uncles, extension) identifier does not cover
+    st.as_ref().and_then(|s| s.get_last_state()).map(|l| {
+        let ptd: U256 = l.as_ref().parent_chain_root().total_difficulty().unpack();
+        format!("{}/{:#x}", xid(l.as_ref()), ptd)
+    })
 }
